@@ -5,6 +5,7 @@ import (
 	"crypto/sha256"
 	"encoding/binary"
 
+	"github.com/btcsuite/btcd/btcutil"
 	"github.com/btcsuite/btcd/chaincfg/chainhash"
 	"github.com/btcsuite/btcd/wire"
 )
@@ -152,3 +153,11 @@ func CoinbaseTx(height uint32, outs ...BtcOut) []byte {
 	}
 	return buf.Bytes()
 }
+
+// P2WPKHScript is the pay-to-witness-pubkey-hash script of a secp256k1 relayer key.
+func P2WPKHScript(k BtcKey) []byte {
+	h := btcutilHash160(k.Priv.PubKey().SerializeCompressed())
+	return append([]byte{0x00, 0x14}, h...)
+}
+
+func btcutilHash160(b []byte) []byte { return btcutil.Hash160(b) }
